@@ -43,6 +43,9 @@
 (*                                             element / a field            *)
 (*   call   f x y -> (v, v+1)   a helper with two results                  *)
 (*   mk     x y / fld S k / fset S k x        a two-field struct           *)
+(*   mkl    S c1 c2             v := S{f1: c1, f2: c2}  a composite literal   *)
+(*                              of constants, of the type of struct S         *)
+(*   mklf   S c1 c2 k           t := S{f1: c1, f2: c2}; v := t.fk             *)
 (* Values are [t, v]: a type and the unsigned representation of the value. *)
 (* Semantics: wrap-around modulo 2^N, two's complement, truncating signed  *)
 (* division, signed modulo = |a| mod |b| (as the shipped @Test vectors fix  *)
@@ -166,7 +169,8 @@ TypesOf(p, n) ==   \* sequence of the types of variables 1..2+n
                     [] s.k = "call" -> <<ts[s.x], ts[s.x]>>
                     [] s.k = "mk" -> <<StructT(ts[s.x], ts[s.y])>>
                     [] s.k = "fld" -> <<ts[s.x][s.c + 1]>>
-                    [] s.k \in {"fset", "fsetl"} -> <<ts[s.x]>>
+                    [] s.k = "mklf" -> <<ts[s.x][s.y + 1]>>
+                    [] s.k \in {"fset", "fsetl", "mkl"} -> <<ts[s.x]>>
          IN ts \o t
 
 NVars(p) == Len(TypesOf(p, Len(p.stmts)))
@@ -251,6 +255,10 @@ AddStmt ==
                 add(S("fset", s, x, 0, "", <<>>, k))
           \/ "struct" \in Kinds /\ \E s \in structs : \E k \in 1..2 : \E c \in {0, 1, 3} :
                 add(S("fsetl", s, 0, c, "", <<>>, k))
+          \/ "struct" \in Kinds /\ \E s \in structs : \E c1 \in {0, 1, 2, 3} : \E c2 \in {0, 1, 3} :
+                add(S("mkl", s, 0, c1, "", <<>>, c2))
+          \/ "struct" \in Kinds /\ \E s \in structs : \E c1 \in {0, 1, 2, 3} : \E c2 \in {0, 1, 3} : \E k \in 1..2 :
+                add(S("mklf", s, k, c1, "", <<>>, c2))
     /\ UNCHANGED phase
 
 \* the program returns one integer variable; every early return must have that type
@@ -328,6 +336,8 @@ Exec(p, i, env) ==
                   [] s.k = "mk" -> <<[t |-> StructT(x.t, y.t), v |-> <<x, y>>]>>
                   [] s.k = "fld" -> <<x.v[s.c]>>
                   [] s.k = "fset" -> <<[x EXCEPT !.v[s.c] = y]>>
+                  [] s.k = "mklf" -> <<IF s.y = 1 THEN Wrap(x.t[2], s.z) ELSE Wrap(x.t[3], s.c)>>
+                  [] s.k = "mkl" -> <<[t |-> x.t, v |-> <<Wrap(x.t[2], s.z), Wrap(x.t[3], s.c)>>]>>
                   [] s.k = "fsetl" -> <<[x EXCEPT !.v[s.c] = Wrap(x.t[s.c + 1], s.z)]>>
               IN Exec(p, i + 1, env \o new)
 
